@@ -71,6 +71,9 @@ class RealTable:
         self.failed = []
 
     def addr(self, a):
+        # an address is (ip, udp port): a third of them share their ip with a neighbour and differ in the port only
+        if a % 3 == 2:
+            return (f'1.2.{(a - 1) // 250 + 1}.{(a - 1) % 250 + 1}', 4445 + a % 7)
         return (f'1.2.{a // 250 + 1}.{a % 250 + 1}', 4444)
 
     def peer(self, d, a):
